@@ -35,7 +35,9 @@ func (g *docGen) numText() string {
 	case 2:
 		return strconv.FormatFloat(math.Float64frombits(uint64(g.rng.IntN(2000)+1)), 'g', -1, 64) // subnormal
 	case 3:
-		return []string{"9007199254740991", "9007199254740992", "9007199254740993", "-9007199254740993", "18446744073709551616"}[g.rng.IntN(5)]
+		// around 2^53 and at the edges of the 32- and 64-bit integer types (9223372036854775807 reads as the double 2^63)
+		return []string{"9007199254740991", "9007199254740992", "9007199254740993", "-9007199254740993", "18446744073709551616", "9223372036854775807", "9223372036854775808", "-9223372036854775808", "-9223372036854775809",
+			"9223372036854774784", "18446744073709551615", "4294967295", "4294967296", "-2147483649", "9.223372036854775808e18", "36893488147419103232"}[g.rng.IntN(16)]
 	case 4:
 		return []string{"1e308", "1.7976931348623157e308", "-1.7976931348623157E+308", "5e-324", "4.9406564584124654e-324", "2.2250738585072014e-308"}[g.rng.IntN(6)]
 	case 5:
